@@ -532,3 +532,204 @@ def describe_lines(case, obs):
     if "\n\n" in t or t.startswith("\n"):
         tags.append("empty-name")
     return tags
+
+
+# ---------------------------------------------------------------------------------------------------------------------
+# the commands as a user types them: a real process, relative paths, no --output (the documented default is standard output)
+# ---------------------------------------------------------------------------------------------------------------------
+
+_shell_dir = None
+
+
+def setup_shell():
+    global _shell_dir
+    from . import c19
+
+    _shell_dir = c19.setup()  # the fixtures of cli_vs_api (g.vcf.gz, g.pgen, h.hap, hb.hap)
+    return _shell_dir
+
+
+def teardown_shell(_):
+    from . import c19
+
+    c19.teardown(_)
+
+
+def gen_shell(rng, tier):
+    from . import c19
+
+    n = 6 if tier == "quick" else 60
+    for t in range(n):
+        cmd = ["transform", "simphenotype", "ld"][t % 3]
+        ids = rng.sample(c19.HAPS[:3], rng.randint(1, 3)) if rng.random() < 0.6 else None
+        smp = rng.sample(c19.SAMPLES, rng.randint(2, len(c19.SAMPLES))) if rng.random() < 0.6 else None
+        yield {"cmd": cmd, "ids": ids, "samples": smp, "pgen": rng.random() < 0.3, "cwd": ["data dir", "sub"][t % 2], "stdout": t % 3 != 2 or rng.random() < 0.5, "target": "hapA", "from_gts": rng.random() < 0.5}
+
+
+def impl_shell(case):
+    """`python -m haptools <cmd> …` in a process of its own, started in a working directory whose name holds a blank (or in a
+    subdirectory, the inputs then being ../…), every path relative, output to standard output unless a relative -o is given;
+    beside it the Python entry point in this process with absolute paths"""
+    import os
+    import subprocess
+    import sys
+
+    d = _shell_dir
+    cwd = d / case["cwd"]
+    cwd.mkdir(exist_ok=True)
+    rel = lambda p: os.path.relpath(p, cwd)
+    gf = d / ("g.pgen" if case["pgen"] else "g.vcf.gz")
+    cmd = case["cmd"]
+    hf = d / ("hb.hap" if cmd == "simphenotype" else "h.hap")
+    if cmd == "simphenotype":
+        gf = d / ("pg.pgen" if case["pgen"] else "pg.vcf.gz")  # the haplotypes' pseudo-genotypes
+    ids = case["ids"]
+    if cmd == "ld" and ids:
+        ids = [i for i in ids if i != case["target"]] or None
+    args = [cmd]
+    if cmd == "simphenotype":
+        args += ["--seed", "5", "-r", "2", "-h", "0.5"]
+    if cmd == "ld" and case["from_gts"]:
+        args += ["--from-gts"]
+        ids = None
+    for i in ids or []:
+        args += ["--id", i]
+    for s in case["samples"] or []:
+        args += ["--sample", s]
+    ext = {"transform": ".vcf", "simphenotype": ".pheno", "ld": ".ld" if case["from_gts"] else ".hap"}[cmd]
+    out_rel = None
+    if not case["stdout"]:
+        out_rel = "shell out" + ext
+        args += ["-o", out_rel]
+    if cmd == "ld":
+        args += [case["target"]]
+    args += [rel(gf), rel(hf)]
+    env = dict(os.environ, PYTHONPATH=str(C.REPO), PYTHONDONTWRITEBYTECODE="1")
+    r = subprocess.run([sys.executable, "-m", "haptools"] + args, cwd=cwd, env=env, capture_output=True, text=True, timeout=300)
+    got = r.stdout if case["stdout"] else (open(cwd / out_rel).read() if (cwd / out_rel).exists() else None)
+    # the Python entry point with the same parameters
+    api_out = d / ("api_out" + ext)
+    if api_out.exists():
+        api_out.unlink()
+    from . import simdata as SD
+
+    if cmd == "transform":
+        from haptools.transform import transform_haps
+
+        api = C.guarded(lambda: transform_haps(gf, hf, samples=set(case["samples"]) if case["samples"] else None, haplotype_ids=set(ids) if ids else None, output=api_out, log=SD.silent_log()) and None)
+    elif cmd == "simphenotype":
+        from haptools.sim_phenotype import simulate_pt
+
+        api = C.guarded(lambda: simulate_pt(gf, hf, num_replications=2, heritability=0.5, samples=set(case["samples"]) if case["samples"] else None, haplotype_ids=set(ids) if ids else None, seed=5, output=api_out, log=SD.silent_log()))
+    else:
+        from haptools.ld import calc_ld
+
+        api = C.guarded(lambda: calc_ld(case["target"], gf, hf, samples=set(case["samples"]) if case["samples"] else None, ids=tuple(ids) if ids else None, from_gts=case["from_gts"], output=api_out, log=SD.silent_log()))
+    want = open(api_out).read() if api_out.exists() else None
+    body = lambda t: None if t is None else [l for l in t.splitlines() if not l.startswith("##")]
+    return {"exit": r.returncode, "cli": body(got), "api": body(want), "api_error": api if isinstance(api, dict) and "error" in api else None, "stderr_tail": r.stderr[-300:] if r.returncode else ""}
+
+
+def oracle_shell(case, obs):
+    if "error" in obs:
+        return f"harness could not run the case: {obs}"
+    what = f"`haptools {case['cmd']}` run from the directory {case['cwd']!r} with relative paths and output to {'standard output' if case['stdout'] else 'a relative -o path'}"
+    if obs["api_error"]:
+        if obs["exit"] == 0:
+            return f"{what} exited with status 0 although the Python entry point fails ({obs['api_error']})"
+        return None
+    if obs["exit"] != 0:
+        return f"{what} exited with status {obs['exit']} although the Python entry point succeeds: {obs['stderr_tail']}"
+    if obs["cli"] != obs["api"]:
+        return f"{what} wrote {str(obs['cli'])[:300]}; the Python entry point with the same parameters writes {str(obs['api'])[:300]}"
+    return None
+
+
+# ---------------------------------------------------------------------------------------------------------------------
+# simgenotype as typed in a shell: relative paths, --out as a bare or oddly spelled name in the working directory
+# ---------------------------------------------------------------------------------------------------------------------
+
+OUT_NAMES = ["sim.vcf", "SIM.VCF", "sim.vcf.gz", "my sim.bcf", "out/sim.vcf", "sim.chr1.vcf"]
+
+
+def gen_simgt_shell(rng, tier):
+    n = len(OUT_NAMES) if tier == "quick" else 36
+    for t in range(n):
+        yield {"inputs": rng.randrange(2**31), "seed": rng.choice([0, 7, 12345]), "out": OUT_NAMES[t % len(OUT_NAMES)], "pop": t % 2 == 1 or rng.random() < 0.6, "sample": rng.random() < 0.6}
+
+
+def _read_sim_vcf(path):
+    import pysam
+
+    vf = pysam.VariantFile(str(path))
+    samples = list(vf.header.samples)
+    recs = []
+    for r in vf:
+        recs.append([r.chrom, r.pos, r.id, [list(r.samples[s]["GT"]) for s in samples], [list(r.samples[s]["POP"]) if "POP" in r.format else None for s in samples], [list(r.samples[s]["SAMPLE"]) if "SAMPLE" in r.format else None for s in samples]])
+    return {"samples": samples, "records": recs}
+
+
+def impl_simgt_shell(case, scratch):
+    """`python -m haptools simgenotype …` in a process of its own, working directory with a blank in its name, inputs by relative
+    path, --out a bare / upper-case / nested / dotted name; beside it the Python entry points with absolute paths and the same seed"""
+    import os
+    import subprocess
+    import sys
+
+    import haptools.sim_genotype as sg
+
+    from . import c10
+    from . import simdata as SD
+
+    d = scratch / "simgt shell"
+    C.rm_tree(d)
+    (d / "work dir" / "out").mkdir(parents=True)
+    c10.make_inputs(d / "sim", case["inputs"])
+    cwd = d / "work dir"
+    s = d / "sim"
+    rel = lambda p: os.path.relpath(p, cwd)
+    args = ["simgenotype", "--model", rel(s / "model.dat"), "--mapdir", rel(s / "maps"), "--chroms", "1,2", "--seed", str(case["seed"]), "--ref_vcf", rel(s / "ref.vcf.gz"), "--sample_info", rel(s / "info.tab"), "--out", case["out"]]
+    args += ["--pop_field"] if case["pop"] else []
+    args += ["--sample_field"] if case["sample"] else []
+    env = dict(os.environ, PYTHONPATH=str(C.REPO), PYTHONDONTWRITEBYTECODE="1")
+    r = subprocess.run([sys.executable, "-m", "haptools"] + args, cwd=cwd, env=env, capture_output=True, text=True, timeout=300)
+    obs = {"exit": r.returncode, "stderr_tail": r.stderr[-300:] if r.returncode else ""}
+    outp = cwd / case["out"]
+    obs["out_exists"] = outp.exists()
+    bps = sorted(p for p in cwd.rglob("*.bp"))
+    obs["bp_files"] = [str(p.relative_to(cwd)) for p in bps]
+    obs["cli_bp"] = open(bps[0]).read() if len(bps) == 1 else None
+    obs["cli_vcf"] = C.guarded(_read_sim_vcf, outp) if outp.exists() else None
+    # the Python entry points, same inputs and seed
+    def api():
+        popsize = sg.validate_params(str(s / "model.dat"), str(s / "maps"), ["1", "2"], 10000, str(s / "ref.vcf.gz"), str(s / "info.tab"), False, None, False)
+        n, pd, bp = sg.simulate_gt(str(s / "model.dat"), str(s / "maps"), ["1", "2"], None, popsize, SD.silent_log(), case["seed"])
+        bp = sg.write_breakpoints(n, pd, bp, str(d / "api"), SD.silent_log())
+        sg.output_vcf(bp, ["1", "2"], str(s / "model.dat"), str(s / "ref.vcf.gz"), str(s / "info.tab"), None, case["pop"], case["sample"], False, str(d / "api.vcf"), SD.silent_log())
+
+    e = C.guarded(api)
+    obs["api_error"] = e if isinstance(e, dict) and "error" in e else None
+    obs["api_bp"] = open(d / "api.bp").read() if (d / "api.bp").exists() else None
+    obs["api_vcf"] = C.guarded(_read_sim_vcf, d / "api.vcf") if (d / "api.vcf").exists() else None
+    return obs
+
+
+def oracle_simgt_shell(case, obs):
+    if "error" in obs:
+        return f"harness could not run the case: {obs}"
+    what = f"`haptools simgenotype --out {case['out']!r}{' --pop_field' if case['pop'] else ''}{' --sample_field' if case['sample'] else ''}` typed in a working directory (relative input paths)"
+    if obs["api_error"]:
+        return None if obs["exit"] != 0 else f"{what} exited with 0 although the Python entry points fail: {obs['api_error']}"
+    if obs["exit"] != 0:
+        return f"{what} exited with status {obs['exit']} although the same simulation succeeds through the Python entry points: {obs['stderr_tail']}"
+    if not obs["out_exists"]:
+        return f"{what} exited with 0 but wrote no file of that name (breakpoint files: {obs['bp_files']})"
+    if obs["cli_bp"] is None or obs["cli_bp"] != obs["api_bp"]:
+        return f"{what}: the breakpoints written ({obs['bp_files']}) differ from those of the Python entry points with the same seed"
+    if obs["cli_vcf"] != obs["api_vcf"]:
+        a, b = obs["cli_vcf"], obs["api_vcf"]
+        hint = ""
+        if isinstance(a, dict) and isinstance(b, dict) and a.get("records") and b.get("records"):
+            hint = f" (first record: {str(a['records'][0])[:200]} vs {str(b['records'][0])[:200]})"
+        return f"{what}: the genotypes / POP / SAMPLE annotations written differ from what output_vcf writes for the same breakpoints and flags{hint}"
+    return None
